@@ -3,6 +3,7 @@ import Mathlib.Data.Nat.Prime.Basic
 import Mathlib.Tactic.Linarith
 import Mathlib.Data.Nat.Factorization.Basic
 import Mathlib.Data.List.Sort
+import Mathlib.NumberTheory.ArithmeticFunction.Misc
 /-! Helper lemmas for C13 (linear sieve invariant; ported from `spikes/SieveProof.lean`). -/
 namespace Rlib.Sieve
 
@@ -729,5 +730,76 @@ theorem IsFactorization.unique {n : Nat} {l₁ l₂ : List (Nat × Nat)}
     rw [← this]
   rw [hrebuild h₁, hrebuild h₂, hfst]
 
+/-! ### tables of a smaller limit read off a larger table (`primesUpTo`) -/
+
+theorem takeWhile_eq_nil_of_forall_not {α} (p : α → Bool) : ∀ (l : List α), (∀ a ∈ l, p a = false) → l.takeWhile p = []
+  | [], _ => rfl
+  | a :: l, h => by
+    rw [List.takeWhile_cons, h a (by simp)]
+    rfl
+
+/-- cutting the increasing list of the `P`-numbers below `M + 1` at `N ≤ M` gives the `P`-numbers below `N + 1` -/
+theorem takeWhile_le_filter_range (P : Nat → Bool) (N M : Nat) (h : N ≤ M) :
+    ((List.range (M + 1)).filter P).takeWhile (fun p => decide (p ≤ N)) = (List.range (N + 1)).filter P := by
+  have hsplit : List.range (M + 1) = List.range (N + 1) ++ List.range' (N + 1) (M - N) := by
+    rw [List.range_eq_range', List.range_eq_range']
+    have := List.range'_append_1 (s := 0) (m := N + 1) (n := M - N)
+    rw [Nat.zero_add] at this
+    rw [this]; congr 1; omega
+  rw [hsplit, List.filter_append, List.takeWhile_append_of_pos, takeWhile_eq_nil_of_forall_not, List.append_nil]
+  · intro a ha
+    have := (List.mem_filter.mp ha).1
+    rw [List.mem_range'] at this
+    obtain ⟨i, hi, rfl⟩ := this
+    simp; omega
+  · intro a ha
+    have := (List.mem_filter.mp ha).1
+    rw [List.mem_range] at this
+    simp; omega
+
+theorem foldUpTo_eq {β : Type} (f : β → Nat → β) (N : Nat) : ∀ (ps : List Nat) (b : β),
+    foldUpTo f N ps b = (primesUpToL ps N).foldl f b
+  | [], b => rfl
+  | p :: ps, b => by
+    unfold foldUpTo primesUpToL
+    rw [List.takeWhile_cons]
+    by_cases h : p ≤ N
+    · rw [if_pos h, decide_eq_true h]
+      exact foldUpTo_eq f N ps (f b p)
+    · rw [if_neg h, decide_eq_false h]
+      rfl
+
+/-! ### what the consumption modes of the factorisation iterator mean arithmetically -/
+
+theorem IsFactorization.fst_toFinset {n : Nat} {l : List (Nat × Nat)} (h : IsFactorization n l) (hn : n ≠ 0) :
+    (l.map Prod.fst).toFinset = n.primeFactors := by
+  ext p
+  rw [List.mem_toFinset, Nat.mem_primeFactors]
+  constructor
+  · intro hp
+    obtain ⟨pe, hpe, rfl⟩ := List.mem_map.mp hp
+    obtain ⟨hq, he, hpos⟩ := h.exact pe hpe
+    refine ⟨hq, ?_, hn⟩
+    by_contra hnd
+    rw [Nat.factorization_eq_zero_of_not_dvd hnd] at he; omega
+  · rintro ⟨hp, hd, _⟩
+    obtain ⟨e, he⟩ := h.complete hp hd
+    exact List.mem_map.mpr ⟨(p, e), he, rfl⟩
+
+theorem IsFactorization.nodup {n : Nat} {l : List (Nat × Nat)} (h : IsFactorization n l) : (l.map Prod.fst).Nodup :=
+  h.increasing.imp (fun h => Nat.ne_of_lt h)
+
+theorem IsFactorization.length_eq {n : Nat} {l : List (Nat × Nat)} (h : IsFactorization n l) (hn : n ≠ 0) :
+    l.length = n.primeFactors.card := by
+  rw [← h.fst_toFinset hn, List.toFinset_card_of_nodup h.nodup, List.length_map]
+
+theorem IsFactorization.prod_succ_eq_card_divisors {n : Nat} {l : List (Nat × Nat)} (h : IsFactorization n l) (hn : n ≠ 0) :
+    (l.map (fun pe => pe.2 + 1)).prod = n.divisors.card := by
+  rw [Nat.card_divisors hn, ← h.fst_toFinset hn, List.prod_toFinset _ h.nodup, List.map_map]
+  congr 1
+  apply List.map_congr_left
+  intro pe hpe
+  simp only [Function.comp]
+  rw [← (h.exact pe hpe).2.1]
 
 end Rlib.Sieve
